@@ -104,13 +104,34 @@ func ConfDir() string { return filepath.Join(EngineRoot(), "conf") }
 type FakeHAProxy struct {
 	mu       sync.Mutex
 	Requests []string // "METHOD path body"
+	failWith int      // != 0: answer every request with this status (the management API is down)
+}
+
+// FailWith makes the management API answer every request with status (0 = healthy again).
+func (f *FakeHAProxy) FailWith(status int) {
+	f.mu.Lock()
+	f.failWith = status
+	f.mu.Unlock()
+}
+
+// StartFakeHAProxy serves the HAProxy management API on the port the engine was told to use
+// (HAPROXY_MANAGE_ENDPOINTS_PORT, set by ReexecWithEngineEnv) without booting an engine.
+func StartFakeHAProxy() *FakeHAProxy {
+	fake := &FakeHAProxy{}
+	listenOn(os.Getenv("HAPROXY_MANAGE_ENDPOINTS_PORT"), http.HandlerFunc(fake.handler))
+	return fake
 }
 
 func (f *FakeHAProxy) handler(w http.ResponseWriter, r *http.Request) {
 	body, _ := io.ReadAll(r.Body)
 	f.mu.Lock()
 	f.Requests = append(f.Requests, r.Method+" "+r.URL.Path+" "+string(body))
+	fail := f.failWith
 	f.mu.Unlock()
+	if fail != 0 {
+		w.WriteHeader(fail)
+		return
+	}
 	w.WriteHeader(200)
 	_, _ = w.Write([]byte("ok"))
 }
